@@ -933,7 +933,11 @@ def walk_now(expr):
 
 def calls_at(g, node, opaque_only=True):
     """ast.Call nodes evaluated at this supergraph node; by default only those NOT inlined"""
-    out = []
+    cache = node.__dict__.setdefault('_sa_calls', {})         # per node of a finished graph (never keyed by id())
+    key = (opaque_only, len(g.inlined))
+    if key in cache:
+        return cache[key]
+    out = cache[key] = []
     for e in own_exprs(node):
         for c in walk_now(e):
             if isinstance(c, ast.Call):
